@@ -586,12 +586,13 @@ func adaptEvents(outDir, tier string, rng *rand.Rand) error {
 		whites = append(whites, whitePt{"xyz", c.X, c.Y, c.Z})
 	}
 	whites = append(whites, whitePt{"xyz", ciexyz.D50.X, ciexyz.D50.Y, ciexyz.D50.Z}, whitePt{"xyz", ciexyz.D65.X, ciexyz.D65.Y, ciexyz.D65.Z})
+	scale := 1 // the luminance scale of the pair being emitted: 1, or 100 (whites given on the 0-100 scale)
 	emitPair := func(a, b whitePt) {
 		defer func() {
 			if r := recover(); r != nil { // a constructor that refuses a physically valid white point is an observation
 				z := matRows(matrix.Matrix3{})
 				sink.put(dy{"kind": "adapt", "a": a.json(), "b": b.json(), "ab": z, "ba": z, "aa": z, "applied": obs3(0, 0, 0), "same_xyy": false,
-					"panic": true, "panic_msg": fmt.Sprint(r)})
+					"panic": true, "panic_msg": fmt.Sprint(r), "scale": scale})
 			}
 		}()
 		ab, ba, aa := a.adaptTo(b), b.adaptTo(a), a.adaptTo(a)
@@ -599,13 +600,32 @@ func adaptEvents(outDir, tier string, rng *rand.Rand) error {
 		// the xyY constructor must give the adaptation of the XYZ constructor on the converted whites
 		viaXYZ := ciexyz.AdaptBetweenXYZWhitePoints(a.xyz(), b.xyz())
 		sink.put(dy{"kind": "adapt", "a": a.json(), "b": b.json(), "ab": matRows(matrix.Matrix3(ab)), "ba": matRows(matrix.Matrix3(ba)),
-			"aa": matRows(matrix.Matrix3(aa)), "applied": obs3(ap.X, ap.Y, ap.Z), "same_xyy": matrix.Matrix3(viaXYZ) == matrix.Matrix3(ab), "panic": false})
+			"aa": matRows(matrix.Matrix3(aa)), "applied": obs3(ap.X, ap.Y, ap.Z), "same_xyy": matrix.Matrix3(viaXYZ) == matrix.Matrix3(ab), "panic": false, "scale": scale})
 	}
 	for _, a := range whites {
 		for _, b := range whites {
 			emitPair(a, b)
 		}
 	}
+	// the same whites on the 0-100 luminance scale (Y = 100), both forms; and the corners of the region
+	scale = 100
+	var whites100 []whitePt
+	for k, i := range append(append([][2]float64{}, ill...), [2]float64{0.2, 0.2}, [2]float64{0.24, 0.23}, [2]float64{0.5, 0.2}, [2]float64{0.2, 0.5}, [2]float64{0.5, 0.5}, [2]float64{0.25, 0.25}) {
+		w := whitePt{"xyy", float32(i[0]), float32(i[1]), 100}
+		if k%2 == 1 {
+			c := w.xyz()
+			w = whitePt{"xyz", c.X, c.Y, c.Z}
+		}
+		whites100 = append(whites100, w)
+	}
+	for _, a := range whites100 {
+		for _, b := range whites100 {
+			if a.form == b.form || tier == "thorough" {
+				emitPair(a, b)
+			}
+		}
+	}
+	scale = 1
 	// chromaticity grid over [0.2, 0.5]^2 (with a seeded luminance now and then)
 	g := 6
 	if tier == "thorough" {
